@@ -647,7 +647,10 @@ func (m *Machine) visit(fr *frame, instr ssa.Instruction) cont {
 		*p = zero(in.Type().(*types.Pointer).Elem())
 		fr.set(in, p)
 	case *ssa.MakeSlice:
-		m.symbolicMakeGuard(fr, fr.get(in.Len)) // model_makeguard.go
+		{
+			_, lenSigned, _ := intInfo(in.Len.Type())
+			m.symbolicMakeGuard(fr, fr.get(in.Len), lenSigned) // model_makeguard.go
+		}
 		ln := int64(m.concretizeInt(fr.get(in.Len), "make([]T) len"))
 		cp := int64(m.concretizeInt(fr.get(in.Cap), "make([]T) cap"))
 		if ln < 0 || cp < ln {
@@ -716,6 +719,9 @@ func (m *Machine) prepareCall(fr *frame, call *ssa.CallCommon) (fn Value, args [
 		if recv.t == nil {
 			if call.Method.Pkg() != nil && noopPkgs[call.Method.Pkg().Path()] {
 				sig := call.Method.Type().(*types.Signature)
+				if g := m.noopIfaceCall(fr, call, sig); g != nil { // model_otel.go
+					return g, nil
+				}
 				return &GoFunc{name: "noop", f: func(m *Machine, args []Value) Value { return zeroResults(sig) }}, nil
 			}
 			m.throwRuntime("invalid memory address or nil pointer dereference (method call on nil interface " + call.Method.Name() + ")")
